@@ -292,6 +292,82 @@ fn threads(em: &mut Emit, rng: &mut Rng, nthreads: usize, per_thread: usize, rou
     }
 }
 
+// ------------------------------------------------------------------ hammer rounds
+
+/// Programs of one shape per family whose constants differ from thread to thread (patterns,
+/// long literal lists / maps / strings / bytes, texts to parse).  First each is executed alone
+/// and compared with the model - anything remembered per call site, per expression id or per
+/// process shows up as an earlier program's constant -; then all threads execute their own
+/// programs at the same time, many times over, and every result must be the solo one -
+/// anything shared between concurrent executions of library-backed built-ins shows up as
+/// another thread's constant.
+fn hammer(em: &mut Emit, nthreads: usize, iters: usize, round: u64) {
+    let spec = CtxSpec {
+        vars: vec![("s".into(), Value::String(Arc::new("p0 p1 p2 p3 p4 p5 p6 p7 p8 p9 p10 p11 p12 p13 p14 p15 q".into()))),
+                   ("n".into(), Value::Int(3))],
+        funs: vec![],
+    };
+    let family = |t: usize| -> Vec<String> {
+        let lits: Vec<String> = (0..10).map(|i| format!("{}", t * 100 + i)).collect();
+        let strs: Vec<String> = (0..9).map(|i| format!("'k{}_{}'", t, i)).collect();
+        vec![
+            format!("s.matches('p{}')", t),
+            format!("'x{}y'.matches('x{}')", t, (t + 1) % 16),
+            format!("'abc{}'.matches('c{}')", t, t),
+            format!("{} in [{}]", t * 100 + 3, lits.join(", ")),
+            format!("n in [{}]", lits.join(", ")),
+            format!("[{}].map(e, e + n)", lits.join(", ")),
+            format!("[{}].size() + {}", lits.join(", "), t),
+            format!("{{{}}}.size()", strs.iter().enumerate().map(|(i, k)| format!("{}: {}", k, i)).collect::<Vec<_>>().join(", ")),
+            format!("'k{}_3' in [{}]", t, strs.join(", ")),
+            format!("duration('{}s') + duration('{}ms')", t + 1, t),
+            format!("timestamp('2020-01-0{}T00:00:0{}Z').getSeconds()", 1 + t % 9, t % 10),
+            format!("'{}'.contains('{}')", format!("long literal number {} of the hammer round, padded to be long", t), t),
+            format!("b'{}' + b'{}'", "ab".repeat(10 + t), t),
+            format!("int('{}') + uint('{}') == {}u ? {} : -1", t, t, 2 * t, t),
+        ]
+    };
+    let fams: Vec<Vec<String>> = (0..nthreads).map(family).collect();
+    let ctxw = spec.wire();
+    let ctx: Context<'static> = spec.build();
+    // alone, in sequence (and against the model)
+    let mut solo: Vec<Vec<(Program, String)>> = Vec::new();
+    for (t, fam) in fams.iter().enumerate() {
+        let mut row = Vec::new();
+        for src in fam {
+            let p = Program::compile(src).expect("hammer program compiles");
+            let w = guarded(std::panic::AssertUnwindSafe(|| exec_wire(&p, &ctx)));
+            em.case(&format!("(evalsrc {} {})", ctxw, sx_str(src)), &w, "nt=1;kind=hammer-solo", &format!("hammer round {} family {}: {}", round, t, src));
+            row.push((p, w));
+        }
+        solo.push(row);
+    }
+    // all at once
+    let solo = &solo;
+    let ctx = &ctx;
+    let bad: Vec<Vec<String>> = std::thread::scope(|sc| {
+        let hs: Vec<_> = (0..nthreads)
+            .map(|t| {
+                sc.spawn(move || {
+                    let mut bad = Vec::new();
+                    for k in 0..iters {
+                        let (p, want) = &solo[t][k % solo[t].len()];
+                        let got = guarded(std::panic::AssertUnwindSafe(|| exec_wire(p, ctx)));
+                        if &got != want && bad.len() < 3 {
+                            bad.push(format!("thread {} iteration {}: {} instead of {}", t, k, got, want));
+                        }
+                    }
+                    bad
+                })
+            })
+            .collect();
+        hs.into_iter().map(|h| h.join().unwrap_or_else(|_| vec!["a thread died".to_string()])).collect()
+    });
+    let all: Vec<String> = bad.into_iter().flatten().collect();
+    let law = if all.is_empty() { "(bool true)".to_string() } else { format!("(law-violated concurrent-result-differs-from-solo {})", all.join("; ")) };
+    em.case("(echo (bool true))", &law, "nt=1;kind=law-hammer", &format!("hammer round {}: {} threads x {} executions", round, nthreads, iters));
+}
+
 // ------------------------------------------------------------------ rendezvous rounds
 
 /// All threads are inside an execution at the same time: every program calls the host function
@@ -626,6 +702,9 @@ pub fn run(em: &mut Emit, thorough: bool, seed: u64) {
         }
         for &n in if thorough { &[2usize, 4, 8, 16][..] } else { &[4usize, 16][..] } {
             rendezvous(em, &mut rng, n, if thorough { 12 } else { 4 }, r);
+        }
+        for &n in if thorough { &[2usize, 8, 16][..] } else { &[8usize][..] } {
+            hammer(em, n, if thorough { 12_000 } else { 4_000 }, r);
         }
     }
 }
